@@ -22,7 +22,7 @@ PROP = dict(
           "non-trivial when n >= 32 and (coset on, or precompute off, or the effective nbTasks is not in {1,16}, or the "
           "recursion reaches an unrolled 32/256-point kernel at a stage >= twiddlesStartStage); a Domain (de)serialisation "
           "case is non-trivial when the reader is chunked (anything but one whole-buffer reader) or the receiver of ReadFrom "
-          "is not a zero-value Domain; Generator(m) cases "
+          "is not a zero-value Domain; a Domain.WriteTo case is non-trivial when the sink fails a Write; Generator(m) cases "
           "are non-trivial for the order checks and for m not a power of two; BitReverse for n >= 4; "
           "distinct = distinct (field, configuration, input) hashes"),
     assumptions=[
@@ -42,6 +42,9 @@ PROP = dict(
                    "reader=onebyte", "reader=half", "reader=chunks", "reader=dataerr", "GOMAXPROCS=3",
                    "readfrom_into:zero", "readfrom_into:other_size", "readfrom_into:same_size_other_shift",
                    "readfrom_into:same_size_other_shift_used", "readfrom_into:same_size_noprecompute", "readfrom_into:after_readfrom",
+                   "recv_tables:larger_than_decoded", "recv_tables:same_size_as_decoded", "recv_tables:smaller_than_decoded",
+                   "sink:fail_at", "sink:fail_once_at", "sink:short_at", "sink:capacity_partial", "sink:capacity_reject",
+                   "sink_outcome:write_failed", "sink_outcome:complete",
                    "variant=purego", "variant=noadx", "variant=noavx512", "variant=default",
                    "generator:error_beyond_two_adicity", "generator:order_ok_at_two_adicity", "check=sampled", "check=full"],
     jobs=[
@@ -56,6 +59,8 @@ PROP = dict(
         dict(name="sched", pkg="c10", run="^TestC10_Sched$", shards=FFTS, rapid=False, weight=5, timeout=T),
         dict(name="race", pkg="c10", run="^TestC10_Sched$", shards=FFTS, rapid=False, race=True, tiers=("thorough",), weight=8,
              timeout=T),
+        # Domain.WriteTo against fault-injecting sinks (every failure position, every capacity), all fields in one process
+        dict(name="writefaults", pkg="c10", run="^TestC10_DomainWriteFaults$", rapid=False),
         dict(name="regress", pkg="c10", run="^TestC10_(Regress_F6|Regress_F6b|RefSelf)$", rapid=False),
     ] + [
         dict(name="dft-" + v["name"], pkg="c10", run="^TestC10_DFT$", shards=VARIANT_FFTS, tags=v.get("tags", ""),
